@@ -266,6 +266,29 @@ def record_adapt(sc):
     S = 2.0 ** -sc.get("pow2", 0)
     with time_limit(20):
         model, d, sim, _ = build(widths, [[x * S for x in o] for o in obs] if S != 1.0 else obs, "adaptive")
+    if sc.get("episode_before"):
+        # the node has been through an earlier adaptation episode (other data, as many updates as the script will make) and was
+        # re-initialised with the public init_state(): nothing of that episode may show in what follows
+        try:
+            with time_limit(20), np.errstate(all="ignore"):
+                first = [st for st in sc["script"] if st["op"] == "add"]
+                ops_ = [st["op"] for st in sc["script"]]
+                nu = sum(1 for o in ops_[:ops_.index("gen")] if o == "update")      # as many updates as precede the first evaluation
+                if first and nu:
+                    for i in range(nu):
+                        arrs = []
+                        for k in range(len(widths)):
+                            a = np.asarray(to_array(first[0]["sums"][k], widths[k]), dtype=float) * S
+                            ramp = np.arange(a.shape[0], dtype=float).reshape((-1,) + (1,) * (a.ndim - 1)) * S * (k + 1.0)
+                            arrs.append(a * (3.0 + 2 * k + i) + ramp)
+                        d.add_data(*arrs)
+                        d.update_distance()
+                        g0 = [st for st in sc["script"] if st["op"] == "gen"][0]       # ... and its distances were looked at
+                        wv0 = with_values(widths, g0["sums"])
+                        d.generate(len(g0["sums"][0]), with_values={k_: v_ * S for k_, v_ in wv0.items()})
+                    d.init_state()
+        except Exception:
+            d.init_state()
     events = []
     for st in sc["script"]:
         op = st["op"]
@@ -450,6 +473,20 @@ def parts_script(rows, comp, widths):
 
 
 def adapt_scenarios(ctx):
+    out = _adapt_scenarios(ctx)
+    for i, sc in enumerate(out):
+        ops = [st["op"] for st in sc.get("script", [])]
+        if i % 3 == 0 and "run" not in ops and "update" in ops and "gen" in ops[ops.index("update"):]:
+            # variant: the distances are first looked at AFTER the first update (the evaluations before it are dropped), on a node that
+            # went through an earlier episode
+            fu = ops.index("update")
+            sc["script"] = [st for j, st in enumerate(sc["script"]) if not (st["op"] == "gen" and j < fu)]
+            sc["tag"] = sc.get("tag", "") + "-second-episode"
+            sc["episode_before"] = True
+    return out
+
+
+def _adapt_scenarios(ctx):
     rnd = random.Random(ctx.seed * 104729 + 12)
     out = []
     # (1) exhaustive tiny domain: one scalar summary, every data set over 0..V of <= N rows, EVERY ordered partition
